@@ -185,3 +185,102 @@ Lemma mids_record_all us : forall s, mids (record_all us s) = mids s.
 Proof. induction us as [|u us IH]; intros s; cbn; [reflexivity|]. rewrite IH. apply mids_record. Qed.
 Ltac recs := rewrite ?rin_record, ?rin_record_all, ?lb_record, ?lb_record_all, ?ub_record, ?ub_record_all, ?sto_record, ?sto_record_all, ?min_record, ?min_record_all, ?back_record, ?back_record_all, ?vin_record, ?vin_record_all, ?vlb_record, ?vlb_record_all, ?vub_record, ?vub_record_all, ?cin_record, ?cin_record_all, ?co_record, ?co_record_all, ?oc_record, ?oc_record_all, ?odir_record, ?odir_record_all, ?rids_record, ?rids_record_all, ?mids_record, ?mids_record_all.
 Ltac recs_in H := rewrite ?rin_record, ?rin_record_all, ?lb_record, ?lb_record_all, ?ub_record, ?ub_record_all, ?sto_record, ?sto_record_all, ?min_record, ?min_record_all, ?back_record, ?back_record_all, ?vin_record, ?vin_record_all, ?vlb_record, ?vlb_record_all, ?vub_record, ?vub_record_all, ?cin_record, ?cin_record_all, ?co_record, ?co_record_all, ?oc_record, ?oc_record_all, ?odir_record, ?odir_record_all, ?rids_record, ?rids_record_all, ?mids_record, ?mids_record_all in H.
+
+Lemma if_same {A} (b : bool) (x : A) : (if b then x else x) = x.
+Proof. destruct b; reflexivity. Qed.
+
+Lemma add_st_Inv s r l combine rev :
+  Inv s -> (forall m, In m (touched l) -> In m (mids s)) -> Inv (fst (add_st r l combine rev s)).
+Proof.
+  intros HI Hu. unfold add_st.
+  set (old := sto s r). set (new := st_after s r l combine).
+  match goal with |- Inv (fst (if ?c then _ else _)) => set (cnd := c) end.
+  assert (H4 : forall x, Inv x -> Inv (fst (if cnd then if combine then (record (USubSt r l) x, Ok)
+             else (record (UResetSt r (map (fun mc => (fst mc, old (fst mc))) l)) x, Ok) else (x, Ok)))).
+  { intros x Hx. destruct cnd; [destruct combine|]; cbn; try apply Inv_record; exact Hx. }
+  apply H4. clear H4 cnd.
+  assert (NU : forall m, memz m (touched l) = false -> new m = sto s r m)
+    by (intros; apply st_after_untouched; assumption).
+  destruct HI as [A B C D E G H I J K].
+  destruct (rin s r) eqn:Er.
+  - conts. unfold model_add_mets. recs. cbn. recs. cbn.
+    unfold content, set_ctx, set_back, set_co, set_cin, set_min, set_sto. cbn. recs. cbn.
+    assert (NW : forall m, memz m (news_of s r l) = true -> min s m = false /\ old m = q0 /\ memz m (touched l) = true)
+      by (intros m Hm; apply news_of_spec in Hm; tauto).
+    constructor; cbn.
+    + exact A.
+    + exact B.
+    + intros m. rewrite C. reflexivity.
+    + intros m r0. rewrite C. names.
+      destruct (Z.eqb_spec r0 r) as [E0|Hne]; [subst r0|].
+      * rewrite Er, upd_same. cbn [andb].
+        destruct ((min s m || memz m (news_of s r l)) && (negb (isz (new m)) || memz m (touched l))) eqn:Ec.
+        -- apply andb_true_iff in Ec as [Ec1 _]. rewrite Ec1. split; reflexivity.
+        -- destruct (D m r) as [D1 D2]. rewrite Er in D1, D2. cbn [andb] in D1, D2. rewrite D1, D2.
+           apply andb_false_iff in Ec as [Ec|Ec].
+           ++ rewrite Ec. apply orb_false_iff in Ec as [Ec1 _]. rewrite Ec1. split; reflexivity.
+           ++ apply orb_false_iff in Ec as [Ez Et]. apply negb_false_iff, isz_true in Ez.
+              rewrite Ez. rewrite (NU m Et) in Ez. rewrite Ez, opp_q0, !if_same. split; reflexivity.
+      * rewrite upd_other by exact Hne. rewrite !if_same.
+        destruct (D m r0) as [D1 D2]. rewrite D1, D2.
+        destruct (rin s r0) eqn:Er0; cbn [andb]; [|split; reflexivity].
+        destruct (min s m) eqn:Em; cbn [orb]; [split; reflexivity|].
+        destruct (memz m (news_of s r l)) eqn:En; [|split; reflexivity].
+        destruct (isz (sto s r0 m)) eqn:Ez.
+        -- apply isz_true in Ez. rewrite Ez, opp_q0. split; reflexivity.
+        -- apply isz_false in Ez. destruct (G r0 m Er0 Ez) as [X _]. congruence.
+    + exact E.
+    + (* forward references *)
+      intros r0 m Hr0 Hs.
+      destruct (Z.eqb_spec r0 r) as [E0|Hne]; [subst r0|].
+      * rewrite upd_same in Hs. cbn [andb].
+        destruct (memz m (touched l)) eqn:Et.
+        -- assert (Hz : isz (new m) = false) by (apply isz_false; exact Hs). rewrite Hz.
+           destruct (isz (old m)) eqn:Eo.
+           ++ split; [|reflexivity]. destruct (min s m) eqn:Em; [reflexivity|]. cbn [orb].
+              apply news_of_spec. apply isz_true in Eo. tauto.
+           ++ apply isz_false in Eo. destruct (G r m Er Eo) as [X Y]. rewrite X. cbn [orb]. tauto.
+        -- rewrite (NU m Et) in Hs. destruct (G r m Er Hs) as [X Y]. rewrite X. cbn [orb]. tauto.
+      * rewrite upd_other in Hs by exact Hne. destruct (G r0 m Hr0 Hs) as [X Y]. rewrite X. cbn [orb].
+        cbn [andb]. tauto.
+    + (* back references *)
+      intros m r0 Hb.
+      destruct (Z.eqb_spec r0 r) as [E0|Hne]; [subst r0|].
+      * cbn [andb] in Hb. rewrite upd_same.
+        destruct (memz m (touched l)) eqn:Et.
+        -- destruct (isz (new m)) eqn:Ez; [discriminate|]. apply isz_false in Ez.
+           split; [|tauto].
+           destruct (isz (old m)) eqn:Eo.
+           ++ destruct (min s m) eqn:Em; [reflexivity|]. cbn [orb]. apply news_of_spec. apply isz_true in Eo. tauto.
+           ++ destruct (H m r Hb) as [X _]. rewrite X. reflexivity.
+        -- destruct (H m r Hb) as [X [Y Z]]. rewrite X. cbn [orb]. rewrite (NU m Et). tauto.
+      * cbn [andb] in Hb. rewrite upd_other by exact Hne. destruct (H m r0 Hb) as [X [Y Z]]. rewrite X. tauto.
+    + (* universe of metabolites *)
+      intros r0 m Hs. destruct (Z.eqb_spec r0 r) as [E0|Hne]; [subst r0|].
+      * rewrite upd_same in Hs. destruct (memz m (touched l)) eqn:Et.
+        -- apply Hu. apply memz_In. exact Et.
+        -- rewrite (NU m Et) in Hs. apply (I r m Hs).
+      * rewrite upd_other in Hs by exact Hne. apply (I r0 m Hs).
+    + intros m r0 Hb. destruct (Z.eqb_spec r0 r) as [E0|Hne]; [subst r0|]; cbn [andb] in Hb.
+      * destruct (memz m (touched l)) eqn:Et.
+        -- destruct (isz (new m)); [discriminate|]. destruct (isz (old m)) eqn:Eo.
+           ++ apply (K r Er).
+           ++ apply (J m r Hb).
+        -- apply (J m r Hb).
+      * apply (J m r0 Hb).
+    + exact K.
+  - constructor; cbn; try assumption.
+    + intros m r0. destruct (Z.eqb_spec r0 r) as [E0|Hne]; [subst r0|].
+      * destruct (D m r) as [D1 D2]. rewrite Er in *. cbn [andb] in *. tauto.
+      * rewrite upd_other by exact Hne. apply D.
+    + intros r0 m Hr0 Hs. destruct (Z.eqb_spec r0 r) as [E0|Hne]; [subst r0; congruence|].
+      rewrite upd_other in Hs by exact Hne. apply (G r0 m Hr0 Hs).
+    + intros m r0 Hb. destruct (H m r0 Hb) as [X [Y Z]].
+      destruct (Z.eqb_spec r0 r) as [E0|Hne]; [subst r0; congruence|].
+      rewrite upd_other by exact Hne. tauto.
+    + intros r0 m Hs. destruct (Z.eqb_spec r0 r) as [E0|Hne]; [subst r0|].
+      * rewrite upd_same in Hs. destruct (memz m (touched l)) eqn:Et.
+        -- apply Hu. apply memz_In. exact Et.
+        -- rewrite (NU m Et) in Hs. apply (I r m Hs).
+      * rewrite upd_other in Hs by exact Hne. apply (I r0 m Hs).
+Qed.
